@@ -87,7 +87,8 @@ fn gen_cmd_base(rng: &mut Rng, roll: usize, run_pat: &dyn Fn(&mut Rng) -> (Strin
     0..=24 => Cmd { args: vec![s("scan"), s("--json=stream")], mode: s("stream"), inspect: false, is_scan: true },
     25..=34 => Cmd { args: vec![s("scan"), s("--json=compact")], mode: s("compact"), inspect: false, is_scan: true },
     35..=44 => Cmd { args: vec![s("scan"), s("--json")], mode: s("pretty"), inspect: false, is_scan: true },
-    45..=59 => Cmd { args: vec![s("scan"), s("--json=stream"), s("--inspect"), s("summary")], mode: s("stream"), inspect: true, is_scan: true },
+    45..=54 => Cmd { args: vec![s("scan"), s("--json=stream"), s("--inspect"), s("summary")], mode: s("stream"), inspect: true, is_scan: true },
+    55..=59 => Cmd { args: vec![s("scan"), s("--json=stream"), s("--inspect"), s("entity")], mode: s("stream"), inspect: true, is_scan: true },
     60..=66 => Cmd { args: vec![s("scan"), s("--format"), s("github")], mode: s("lines"), inspect: false, is_scan: true },
     67..=73 => Cmd { args: vec![s("scan"), s("--color"), s("never"), s("--report-style"), s("short")], mode: s("lines"), inspect: false, is_scan: true },
     74..=78 => Cmd { args: vec![s("scan"), s("--color"), s("never")], mode: s("lines"), inspect: false, is_scan: true },
@@ -126,6 +127,8 @@ pub struct Observed {
   pub scanned: Option<usize>,
   pub skipped: Option<usize>,
   pub failed: Option<String>,
+  /// `sg: entity|file|...` lines of `--inspect entity` (sorted)
+  pub trace: Vec<String>,
 }
 
 fn canon(v: &Value) -> String {
@@ -187,6 +190,13 @@ pub fn parse_output(cmd: &Cmd, out: &CliOutcome) -> Result<Observed, String> {
   if cmd.inspect {
     let err = out.stderr_str();
     for line in err.lines() {
+      // a trace record is one line: `sg: <level>|<entity>[|<path>]: k=v,...`
+      if line.contains("sg: ") && (!line.starts_with("sg: ") || line.matches("sg: ").count() != 1) {
+        return Err(format!("--inspect: trace records are glued together or split: {}", clip(line)));
+      }
+      if line.starts_with("sg: entity|file|") {
+        o.trace.push(line.to_string());
+      }
       if let Some(rest) = line.strip_prefix("sg: summary|file: ") {
         for kv in rest.split(',') {
           if let Some(v) = kv.strip_prefix("scannedFileCount=") {
@@ -198,6 +208,7 @@ pub fn parse_output(cmd: &Cmd, out: &CliOutcome) -> Result<Observed, String> {
         }
       }
     }
+    o.trace.sort();
   }
   Ok(o)
 }
@@ -332,6 +343,7 @@ pub fn eval_plan(env: &Env, w: &CliWorld, cmd: &Cmd, plan: &Plan, baselines: &mu
   let mut exp_errors = 0usize;
   let mut exp_scanned = 0usize;
   let mut exp_skipped = 0usize;
+  let mut exp_trace: Vec<String> = vec![];
   // the union ranges over every file of the tree that the ignore rules do not exclude, not
   // only over what the walker reported: a file lost at discovery must show up as missing
   // hidden directories are never walked; `vendor/` only when the generated .ignore says so
@@ -381,7 +393,20 @@ pub fn eval_plan(env: &Env, w: &CliWorld, cmd: &Cmd, plan: &Plan, baselines: &mu
       continue; // directories
     }
     let fired = sched.fired.iter().find(|f| &f.path == d);
+    // hard links share their content: a fault that rewrote one path changed all of them
+    let group_of = |p: &str| -> String { w.files.iter().find(|f| f.path == p).and_then(|f| f.link_to.clone()).unwrap_or_else(|| p.to_string()) };
+    // ... for this path only if it was read after that fault fired (event order decides)
+    let read_pos = sched.events.iter().position(|e| e.ends_with(&format!(" read {d}")));
+    let content_changed_elsewhere = fired.is_none()
+      && sched.fired.iter().any(|f| {
+        let fault_pos = sched.events.iter().position(|e| *e == format!("fault {} {}", f.kind, f.path));
+        matches!(f.kind.as_str(), "truncate" | "content-swap")
+          && f.path != *d
+          && group_of(&f.path) == group_of(d)
+          && matches!((read_pos, fault_pos), (Some(r), Some(x)) if r > x)
+      });
     let b: Observed = match fired {
+      None if content_changed_elsewhere => env.baseline(cmd, d)?,
       Some(f) if is_read_failure(&f.kind) => Observed { scanned: Some(1), skipped: Some(1), ..Default::default() },
       Some(_) => env.baseline(cmd, d)?, // mutated content is still in the sandbox
       None => {
@@ -396,6 +421,9 @@ pub fn eval_plan(env: &Env, w: &CliWorld, cmd: &Cmd, plan: &Plan, baselines: &mu
       return Err(format!("baseline for {d} failed: {f}"));
     }
     expected.extend(b.records.iter().cloned());
+    if was_discovered {
+      exp_trace.extend(b.trace.iter().cloned());
+    }
     exp_errors += b.errors.unwrap_or(0);
     if was_discovered {
       exp_scanned += b.scanned.unwrap_or(0);
@@ -425,6 +453,27 @@ pub fn eval_plan(env: &Env, w: &CliWorld, cmd: &Cmd, plan: &Plan, baselines: &mu
     let got = obs.errors.unwrap_or(0);
     if got != exp_errors {
       po.violation = viol("EXIT-STATUS", format!("scan ended with {got} error(s) found, the union of per-file runs has {exp_errors}"));
+      return Ok(po);
+    }
+  }
+  if cmd.inspect && cmd.args.iter().any(|a| a == "entity") {
+    exp_trace.sort();
+    if exp_trace != obs.trace {
+      if std::env::var("AGSIM_DEBUG").is_ok() {
+        eprintln!("EXP {:#?}\nOBS {:#?}", exp_trace, obs.trace);
+      }
+      let missing = diff_multiset(&exp_trace, &obs.trace);
+      let extra = diff_multiset(&obs.trace, &exp_trace);
+      po.violation = viol(
+        "INSPECT-TRACE",
+        format!(
+          "--inspect entity: {} file records, per-file runs add up to {}; missing e.g. {:?}, unexpected e.g. {:?}",
+          obs.trace.len(),
+          exp_trace.len(),
+          missing.first().map(|s| clip(s)),
+          extra.first().map(|s| clip(s))
+        ),
+      );
       return Ok(po);
     }
   }
@@ -480,10 +529,20 @@ pub fn gen_plan(seed: u64, w: &CliWorld, tier: &str) -> Plan {
     let n = fr.range(1, 3);
     for _ in 0..n {
       let f = fr.pick(&normal);
-      if faults.iter().any(|x: &Fault| x.path == f.path) {
+      // one fault per file, and per group of hard links (they share their content, and the
+      // expectation for a mutated file is taken from the tree as the run left it)
+      let group = |p: &str| -> String { w.files.iter().find(|x| x.path == p).and_then(|x| x.link_to.clone()).unwrap_or_else(|| p.to_string()) };
+      if faults.iter().any(|x: &Fault| group(&x.path) == group(&f.path)) {
         continue;
       }
-      let kind = *fr.pick(&["vanish", "truncate", "replace-by-dir", "content-swap", "eio", "eacces"]);
+      // in a tree with hard links a fault that rewrites a file rewrites all its links at some
+      // point of the schedule; such trees only get faults that leave file contents alone
+      let has_links = w.files.iter().any(|x| x.link_to.is_some());
+      let kind = if has_links {
+        *fr.pick(&["vanish", "replace-by-dir", "eio", "eacces"])
+      } else {
+        *fr.pick(&["vanish", "truncate", "replace-by-dir", "content-swap", "eio", "eacces"])
+      };
       let content = if kind == "content-swap" {
         let other = fr.pick(&normal);
         Some(other.text.clone())
@@ -515,7 +574,7 @@ fn gen_world_and_cmd(seed: u64) -> (CliWorld, Cmd) {
   let mut r = Rng::stream(seed, "world");
   let w = cli_world::gen_world(
     &mut r,
-    &GenOpts { max_files: 14, allow_special: true, with_tests: false, fix_heavy: false, order_sensitive_rules: false },
+    &GenOpts { max_files: 14, allow_special: true, with_tests: false, fix_heavy: false, order_sensitive_rules: false, hard_links: true },
   );
   let cmd = gen_cmd(&mut r, &w);
   let mut w = w;
@@ -541,10 +600,24 @@ fn hash_events(ev: &[String]) -> u64 {
 }
 
 /// Full evaluation from scratch (used by shrinking and replay).
+/// Reference runs of every source file on the pristine tree. They must exist before any plan
+/// runs: a fault that rewrites one path also rewrites its hard links, so a reference computed
+/// afterwards would see the mutated content.
+fn warm_baselines(env: &Env, w: &CliWorld, cmd: &Cmd, baselines: &mut BTreeMap<String, Observed>) -> Result<(), String> {
+  for f in &w.files {
+    if !baselines.contains_key(&f.path) {
+      let b = env.baseline(cmd, &f.path)?;
+      baselines.insert(f.path.clone(), b);
+    }
+  }
+  Ok(())
+}
+
 fn eval_fresh(w: &CliWorld, cmd: &Cmd, plan: &Plan, hash_seed: u64) -> Result<PlanOutcome, String> {
   let env = Env::new(hash_seed);
   w.materialize(&env.root);
   let mut b = BTreeMap::new();
+  warm_baselines(&env, w, cmd, &mut b)?;
   eval_plan(&env, w, cmd, plan, &mut b)
 }
 
@@ -648,6 +721,9 @@ impl Simulation for C17Sim {
     let env = Env::new(hash_seed);
     w.materialize(&env.root);
     let mut baselines = BTreeMap::new();
+    if let Err(e) = warm_baselines(&env, &w, &cmd, &mut baselines) {
+      panic!("harness: {e} (cmd {:?})", cmd.args);
+    }
     let mut r = RunReport::default();
     let mut all_events: Vec<String> = vec![];
     for p in 0..PLANS_PER_WORLD {
